@@ -129,13 +129,43 @@ Theorem c01_outside : forall w o chg now w1,
 Proof. exact outside_lemma. Qed.
 Print Assumptions c01_outside.
 
-(* Every call that is not an update of a patched source (patching, mode, priorities, data arriving on
-   an unpatched port) leaves the frame alone and sends nothing. *)
+(* Every call that is not an update of a patched source and not SetDMX (patching, mode, priorities,
+   housekeeping, data arriving on an unpatched port, a dependant changing what its WriteDMX/SendDMX
+   returns) leaves the frame alone and sends nothing. *)
 Theorem c01_admin : forall w o,
-  apply_update w o = None ->
+  apply_update w o = None -> (forall d, o <> SetDMX d) ->
   snd (step w o) = [] /\ u_buf (w_u (fst (step w o))) = u_buf (w_u w).
 Proof. exact admin_lemma. Qed.
 Print Assumptions c01_admin.
+
+(* Universe::SetDMX (an explicit override, outside the merge): a non-empty frame is stored as is
+   (first 512 slots) and handed to every output port and sink with the active priority the last
+   merge left; an empty frame is ignored. *)
+Theorem c01_setdmx : forall w d,
+  (dmx_set d = [] -> step w (SetDMX d) = (w, [])) /\
+  (dmx_set d <> [] ->
+   u_buf (w_u (fst (step w (SetDMX d)))) = dmx_set d /\
+   snd (step w (SetDMX d)) =
+     hand_out (u_outs (w_u w)) (u_sinks (w_u w)) (dmx_set d) (u_prio (w_u w))).
+Proof. exact setdmx_lemma. Qed.
+Print Assumptions c01_setdmx.
+
+(* Housekeeping contract (Universe::CleanStaleSourceClients, run periodically by the daemon): once data
+   of client [c] has arrived (either client update call), [c] remains a candidate source of the
+   universe - so c01_merge/c01_htp/c01_ltp count it in the group whenever it is live and of top
+   priority - through any later calls [before] without a housekeeping run, and still after ONE
+   housekeeping run followed by any calls [after] without another one, provided nobody removes it
+   explicitly.  (A second run without data in between evicts it: Example ex_housekeeping.)  Hence a
+   client that keeps sending between consecutive housekeeping runs is never dropped. *)
+Theorem c01_housekeeping : forall w o c now w1 before after,
+  apply_update w o = Some (Client c, now, w1) ->
+  Forall (fun o => ~ (o = CleanStale \/ o = RemoveSource c)) before ->
+  Forall (fun o => ~ (o = CleanStale \/ o = RemoveSource c)) after ->
+  let w_a := fold_left (fun w o => fst (step w o)) before (fst (step w o)) in
+  let w_b := fold_left (fun w o => fst (step w o)) (before ++ CleanStale :: after) (fst (step w o)) in
+  In (Client c, w_csrc w_a c) (sources w_a) /\ In (Client c, w_csrc w_b c) (sources w_b).
+Proof. exact housekeeping_lemma. Qed.
+Print Assumptions c01_housekeeping.
 
 (* "Never merged in": two worlds that agree on mode, frame held, output ports and sinks and whose
    live highest-priority groups coincide produce the same frame and the same calls, whatever their
@@ -152,12 +182,12 @@ Proof. exact noninterference_lemma. Qed.
 Print Assumptions c01_noninterference.
 
 (* Every world reachable from the initial one by any sequence of calls: no port is listed twice, the
-   client containers are strictly ascending (so a group never counts a source twice), and every
+   client containers are strictly ascending in their keys (so a group never counts a source twice), and every
    frame held by a port, a client or the universe has at most 512 slots. *)
 Theorem c01_reachable : forall ops,
   let w := run ops in
   NoDup (u_inputs (w_u w)) /\ NoDup (u_outs (w_u w)) /\
-  StronglySorted N.lt (u_clients (w_u w)) /\ StronglySorted N.lt (u_sinks (w_u w)) /\
+  StronglySorted N.lt (map fst (u_clients (w_u w))) /\ StronglySorted N.lt (u_sinks (w_u w)) /\
   (forall i, (length (s_data (p_src (w_ports w i))) <= 512)%nat) /\
   (forall c, (length (s_data (w_csrc w c)) <= 512)%nat) /\
   (length (u_buf (w_u w)) <= 512)%nat.
@@ -256,3 +286,21 @@ Example ex_prio_premise :
                    | ClientData _ _ p _ _ => p <= 200 | SetInherited _ p => p <= 200 | _ => True
                    end) (ex_setup ++ [SetInherited 1 200; ClientData 3 [0; 0; 7] 100 30 30]).
 Proof. cbn [ex_setup app]. repeat constructor; intro H; discriminate H. Qed.
+
+(* housekeeping: a streaming client survives any number of runs as long as it sends between them and
+   is merged (HTP with port 0); without data between two runs it is evicted and only the port remains *)
+Example ex_housekeeping :
+  let w := run [AddInput 0; AddOutput 5; SetMode false; ClientData 3 [0; 9] 100 10 10; CleanStale;
+                ClientData 3 [0; 9] 100 20 20; CleanStale; ClientData 3 [0; 9] 100 30 30; CleanStale] in
+  map fst (u_clients (w_u w)) = [3] /\
+  snd (step w (PortData 0 [7] 40 40)) = [WriteDMX 5 [7; 9] 100] /\
+  map fst (u_clients (w_u (fst (step w CleanStale)))) = [] /\
+  snd (step (fst (step w CleanStale)) (PortData 0 [7] 40 40)) = [WriteDMX 5 [7] 100].
+Proof. vm_compute. repeat split; reflexivity. Qed.
+
+(* SetDMX and ignored return values *)
+Example ex_setdmx :
+  let w := run [AddOutput 5; AddSink 1; OutResult 5 false; SinkResult 1 false] in
+  step w (SetDMX []) = (w, []) /\
+  snd (step w (SetDMX [1; 2])) = [WriteDMX 5 [1; 2] 0; SendDMX 1 [1; 2] 0].
+Proof. vm_compute. repeat split; reflexivity. Qed.
